@@ -44,42 +44,42 @@ func (r rawRoot) MarshalRestLi(w rootcodec.Writer) error { w.WriteRawBytes(r.dat
 
 type rp struct{ root, path string }
 
-func (r rp) RootResource() string           { return r.root }
+func (r rp) RootResource() string          { return r.root }
 func (r rp) ResourcePath() (string, error) { return r.path, nil }
 
 // server-side stubs
 type srvPathV2 struct{}
 
-func (*srvPathV2) NewInstance() *srvPathV2                          { return &srvPathV2{} }
-func (*srvPathV2) UnmarshalResourcePath([]v2codec.Reader) error     { return nil }
+func (*srvPathV2) NewInstance() *srvPathV2                      { return &srvPathV2{} }
+func (*srvPathV2) UnmarshalResourcePath([]v2codec.Reader) error { return nil }
 
 type anyQueryV2 struct{}
 
-func (*anyQueryV2) NewInstance() *anyQueryV2                               { return &anyQueryV2{} }
-func (*anyQueryV2) DecodeQueryParams(v2codec.QueryParamsReader) error      { return nil }
+func (*anyQueryV2) NewInstance() *anyQueryV2                          { return &anyQueryV2{} }
+func (*anyQueryV2) DecodeQueryParams(v2codec.QueryParamsReader) error { return nil }
 
 type srvPathRoot struct{}
 
-func (*srvPathRoot) NewInstance() *srvPathRoot                        { return &srvPathRoot{} }
-func (*srvPathRoot) UnmarshalResourcePath([]rootcodec.Reader) error   { return nil }
+func (*srvPathRoot) NewInstance() *srvPathRoot                      { return &srvPathRoot{} }
+func (*srvPathRoot) UnmarshalResourcePath([]rootcodec.Reader) error { return nil }
 
 type anyQueryRoot struct{}
 
-func (*anyQueryRoot) NewInstance() *anyQueryRoot                             { return &anyQueryRoot{} }
-func (*anyQueryRoot) DecodeQueryParams(rootcodec.QueryParamsReader) error    { return nil }
+func (*anyQueryRoot) NewInstance() *anyQueryRoot                          { return &anyQueryRoot{} }
+func (*anyQueryRoot) DecodeQueryParams(rootcodec.QueryParamsReader) error { return nil }
 
 type stubV2 struct{}
 
-func (*stubV2) NewInstance() *stubV2                       { return &stubV2{} }
-func (*stubV2) UnmarshalRestLi(v2codec.Reader) error       { return nil }
+func (*stubV2) NewInstance() *stubV2                 { return &stubV2{} }
+func (*stubV2) UnmarshalRestLi(v2codec.Reader) error { return nil }
 func (*stubV2) MarshalRestLi(w v2codec.Writer) error {
 	return w.WriteMap(func(func(string) v2codec.Writer) error { return nil })
 }
 
 type stubRoot struct{}
 
-func (*stubRoot) NewInstance() *stubRoot                     { return &stubRoot{} }
-func (*stubRoot) UnmarshalRestLi(rootcodec.Reader) error     { return nil }
+func (*stubRoot) NewInstance() *stubRoot                 { return &stubRoot{} }
+func (*stubRoot) UnmarshalRestLi(rootcodec.Reader) error { return nil }
 func (*stubRoot) MarshalRestLi(w rootcodec.Writer) error {
 	return w.WriteMap(func(func(string) rootcodec.Writer) error { return nil })
 }
@@ -674,11 +674,11 @@ type rawCase struct {
 	MustReject bool              `json:"must_reject"` // one of the property's malformed classes
 	MustAccept bool              `json:"must_accept"` // well-formed: must decode and reach the resource
 	// results
-	Wire    *wire      `json:"wire,omitempty"`
-	Decoded *decoded   `json:"decoded,omitempty"`
-	Status  int        `json:"status,omitempty"`
+	Wire    *wire        `json:"wire,omitempty"`
+	Decoded *decoded     `json:"decoded,omitempty"`
+	Status  int          `json:"status,omitempty"`
 	Invoked []invocation `json:"invoked,omitempty"`
-	Panic   bool       `json:"handler_panic,omitempty"`
+	Panic   bool         `json:"handler_panic,omitempty"`
 }
 
 const srvSite = "restli/tunnelling.go:DecodeTunnelledQuery, restli/handler.go:ServeHTTP"
@@ -826,6 +826,100 @@ func rawCases() []rawCase {
 	}
 }
 
+// ---- override header + every shape of URL query
+//
+// The rule is on the RAW query (tunnelling.go:58: req.URL.RawQuery != ""; model: w_rawquery r <> []): a method-override POST
+// whose request target carries ANY non-empty query is malformed, whether or not net/url can make parameters out of it.
+// Fixed shapes (separators only, semicolons - dropped by url.ParseQuery since Go 1.17 -, malformed escapes, keys without
+// value, values without key, ordinary parameters, Rest.li syntax) plus seeded random strings over the query alphabet, each
+// with a well-formed form-encoded GET tunnel and a well-formed multipart PUT tunnel (must be rejected with 400 before
+// resource code), and - as pass-through probes compared with the model only - with the override header on a GET, with an
+// empty override header, and without the header.
+func rawQueryClass(q string) string {
+	switch {
+	case strings.Trim(q, "&;") == "":
+		return "separators-only"
+	case strings.Contains(q, ";"):
+		return "semicolon"
+	}
+	if _, err := url.ParseQuery(q); err != nil {
+		return "bad-escape"
+	}
+	if v, _ := url.ParseQuery(q); len(v) == 0 {
+		return "parses-to-nothing"
+	}
+	if !strings.Contains(q, "=") {
+		return "no-equals"
+	}
+	return "parameters"
+}
+
+func rawQueryShapes(r *hx.Rand, thorough bool) []string {
+	qs := []string{"&", "&&", "&&&", ";", ";;", "&;&", "=", "==", "=&=", "a;b", "fields=id;x", ";a=1", "a=1;", "%zz", "fields=%zz", "%", "%2", "a=%",
+		"a", "a=", "=b", "a=1&", "&a=1", "a=1&b=2", "a=b=c", "?", "+", "%20", "%00", "%26", "a%3Db", "fields=id", "fields=id,name", "q=finder&x=(a:1,b:List(2))",
+		"ids=List(1,2)", "/", ":", "(", "'", "~", ".", "a=1&a=2", strings.Repeat("k=v&", 40)}
+	n := 60
+	if thorough {
+		n = 1500
+	}
+	const alphabet = "a1=&;%z+.,()'~:/?*-_!$@"
+	seen := map[string]bool{}
+	for _, q := range qs {
+		seen[q] = true
+	}
+	base := len(qs)
+	for len(qs) < base+n {
+		l := 1 + r.Intn(6)
+		b := make([]byte, l)
+		for i := range b {
+			if r.Chance(55) {
+				b[i] = "&;=%a"[r.Intn(5)]
+			} else {
+				b[i] = alphabet[r.Intn(len(alphabet))]
+			}
+		}
+		if q := string(b); !seen[q] {
+			seen[q] = true
+			qs = append(qs, q)
+		}
+	}
+	return qs
+}
+
+func rawQueryCases(r *hx.Rand, thorough bool) []rawCase {
+	mp := "multipart/mixed; boundary=" + bnd
+	form, js := "application/x-www-form-urlencoded", "application/json"
+	hdr := func(method, ct string, override *string) map[string]string {
+		m := map[string]string{"X-RestLi-Method": method, "X-RestLi-Protocol-Version": "2.0.0"}
+		if ct != "" {
+			m["Content-Type"] = ct
+		}
+		if override != nil {
+			m["X-HTTP-Method-Override"] = *override
+		}
+		return m
+	}
+	sp := func(s string) *string { return &s }
+	var out []rawCase
+	for i, q := range rawQueryShapes(r, thorough) {
+		cl := rawQueryClass(q)
+		for _, path := range []string{"/coll", "/coll/a%2Fb/sub/(k:1)"}[:1+i%2] {
+			t := path + "?" + q
+			out = append(out,
+				rawCase{Name: "override-with-url-query:" + cl + ":form", Method: "POST", Target: t, Headers: hdr("get", form, sp("GET")), Body: "param=bar", MustReject: true},
+				rawCase{Name: "override-with-url-query:" + cl + ":multipart", Method: "POST", Target: t, Headers: hdr("update", mp, sp("PUT")),
+					Body: part(form, "param=bar") + part(js, "{}") + closing(), MustReject: true},
+				// pass-through probes (the model decides): the header on a GET, an empty header value, no header
+				rawCase{Name: "url-query-shape:override-on-get", Method: "GET", Target: t, Headers: hdr("get", "", sp("DELETE"))},
+				rawCase{Name: "url-query-shape:empty-override", Method: "POST", Target: t, Headers: hdr("update", js, sp("")), Body: "{}"},
+				rawCase{Name: "url-query-shape:no-override", Method: "PUT", Target: t, Headers: hdr("update", js, nil), Body: "{}"})
+		}
+	}
+	// a bare "?" is an EMPTY raw query: a well-formed tunnel
+	out = append(out, rawCase{Name: "ok-form-bare-question-mark", Method: "POST", Target: "/coll?", Headers: hdr("get", form, sp("GET")), Body: "param=bar", MustAccept: true})
+	return out
+}
+
 // ---- the grid
 
 func queriesFor(base string, r *hx.Rand, thorough bool) []string {
@@ -897,7 +991,9 @@ func main() {
 		"boundary-like text, non-ASCII, long) x bodies (absent, empty, JSON, JSON / raw bytes with boundary-like lines) x thresholds {0, 1, len-1, len, len+1, 2^20, -1, 2}, through the real " +
 		"client entry points, the wire (Request.Write / http.ReadRequest) and the real DecodeTunnelledQuery, compared with the same request built with tunnelling off; plus hand-crafted wire " +
 		"requests (malformed tunnelling of every class the property names, well-formed variants, override header without tunnelled body) through DecodeTunnelledQuery and a real server " +
-		"with a recording stub resource; plus SIZE cases (generated query / body of 64 KiB, 1 MiB - 1, 1 MiB, 1 MiB + 1, 2 MiB, 3 MiB; body-less and with body; ORACLE ONLY: they are compared with the untunnelled request " +
+		"with a recording stub resource; plus the URL-QUERY-SHAPE sweep: the override header (form-encoded GET tunnel and multipart PUT tunnel, both well-formed) with EVERY shape of non-empty raw URL query - separators only (&, &&, ;), " +
+		"semicolons (a;b: dropped by url.ParseQuery), malformed escapes (%zz, %), =, keys without value, ordinary and Rest.li parameters, and 60 (thorough: 1500) seeded random strings over the query alphabet - which must all be " +
+		"answered 400 before resource code (the rule is on the RAW query), the same targets with the header on a GET / an empty header value / no header as pass-through probes for the model, and a bare '?' (empty raw query: a well-formed tunnel); plus SIZE cases (generated query / body of 64 KiB, 1 MiB - 1, 1 MiB, 1 MiB + 1, 2 MiB, 3 MiB; body-less and with body; ORACLE ONLY: they are compared with the untunnelled request " +
 		"on the real code but not handed to the Coq evaluation, whose cost is linear in the bytes with a large constant; the quick tier runs a handful of them) and 'several requests alive' streams (request A built, " +
 		"then B built, only then A written to the wire and decoded; N requests built first and sent in reverse order - these also go to the model); both module generations. non-trivial = tunnelled AND query/body hold a separator or boundary-like bytes (client cases), or a must-reject " +
 		"case (raw cases); distinct by all inputs")
@@ -955,6 +1051,9 @@ func main() {
 	for mi := range modules {
 		m := &modules[mi]
 		for _, rc := range rawCases() {
+			runRaw(m, rc, rep, sh)
+		}
+		for _, rc := range rawQueryCases(hx.NewRand(cfg.Seed+14), cfg.Thorough()) {
 			runRaw(m, rc, rep, sh)
 		}
 		n := 0
